@@ -219,6 +219,11 @@ Fixpoint ordinary (pm : list (N * string)) (es : list entry) : list sym :=
 Definition prefixes_known (pm : list (N * string)) (es : list entry) : Prop :=
   forall k n v, In (EOrd k n v) es -> lookup k pm <> None.
 
+(* Note on the write step of main_cli (not modelled as a function): the listing file's bytes are
+   generate_listing()'s text encoded as UTF-8 with surrogateescape, whatever the locale is
+   (f.write(text.encode("utf-8", "surrogateescape")) on a file opened "wb").  The strings of this
+   model are already those byte strings, so the model's text IS the file content; a file name that
+   is not UTF-8 appears in it byte for byte.  Tied by the locale stream of tools/props/c19.py. *)
 (* ======================================================================================== *)
 (* main_cli: which file the listing is named after, and the listing path *)
 
